@@ -170,20 +170,35 @@ def buyOracle (a b : World) (lid bid : Nat) : List String :=
      | _, _ => ["x"])
   | _, _ => ["x"]
 
-/-- which pre-existing records of somebody other than `caller` changed -/
+/-- a balance without the entries that name `caller` as token / collection -/
+def stripCaller (g : GBal) (caller : Nat) : GBal :=
+  ⟨g.native, g.cw20.filter (fun c => c.key != caller), g.nfts.filter (fun n => n.coll != caller)⟩
+
+/-- which pre-existing records of somebody other than `caller` changed. What the unchanged code lets a
+    forging contract do (the recorded finding, `C18_partial_receive`) is confined to entries that name the
+    forger itself as token or collection; a change that reaches anything else — another asset, the
+    pending fee, the owner, the ask — carries the suffix `!beyond` and is not the recorded finding. -/
 def changedRecords (a b : World) (caller : Nat) : List String :=
   (a.mkt.listings.filterMap (fun p =>
     if p.1.1 = caller then none
     else
       match alookup p.1 b.mkt.listings with
       | some l' => if canonListing l' == canonListing p.2 then none
-                   else some ("listing:" ++ (match p.2.status with | .preparing => "prep" | .finalized => "fin" | .closed => "closed"))
+                   else
+                     let confined := canonListing { l' with forSale := stripCaller l'.forSale caller } ==
+                                     canonListing { p.2 with forSale := stripCaller p.2.forSale caller }
+                     some ("listing:" ++ (match p.2.status with | .preparing => "prep" | .finalized => "fin" | .closed => "closed") ++
+                           (if confined then "" else "!beyond"))
       | none => some "listing:removed")) ++
   (a.mkt.buckets.filterMap (fun p =>
     if p.1.1 = caller then none
     else
       match alookup p.1 b.mkt.buckets with
-      | some b' => if canonBucket b' == canonBucket p.2 then none else some "bucket"
+      | some b' => if canonBucket b' == canonBucket p.2 then none
+                   else
+                     let confined := canonBucket { b' with funds := stripCaller b'.funds caller } ==
+                                     canonBucket { p.2 with funds := stripCaller p.2.funds caller }
+                     some (if confined then "bucket" else "bucket!beyond")
       | none => some "bucket:removed"))
 
 end Fuzion.Cmp
